@@ -146,7 +146,7 @@ func init() {
 	harnessModels["vpRowBytes"] = func(e *Engine, st *State, x *ssa.Call, args []Value) bool {
 		ts := e.ts
 		ln := ts.Var("doclen", BV(64))
-		st.pc = append(st.pc, ts.App(BoolSort, "bvuge", ln, ts.BVInt(64, 2)), ts.App(BoolSort, "bvult", ln, ts.BVInt(64, 1<<30)))
+		st.addPC(ts.App(BoolSort, "bvuge", ln, ts.BVInt(64, 2)), ts.App(BoolSort, "bvult", ln, ts.BVInt(64, 1<<30)))
 		o := e.newObj(st, nil, &DocBytesV{Node: args[0].(*PtrV), Len: ln})
 		setRes(st, x, &SliceV{Obj: o, Off: ts.BVInt(64, 0), Len: ln, Cap: ln})
 		return true
